@@ -82,9 +82,15 @@ func manyDocsWorld(n int) *gen.World {
 	w := &gen.World{Root: gen.RootURL, Features: map[string]int{"many-documents-world": 1}, Docs: map[string]interface{}{}}
 	for i := 0; i < n; i++ {
 		u := fmt.Sprintf("file:///w/a/many/doc%03d.json", i)
+		rel := fmt.Sprintf("many/doc%03d.json#/definitions/d", i)
+		if i%7 == 3 {
+			// a document whose location has a query (a revision, a token): referred to by its absolute URL from both places
+			u = fmt.Sprintf("http://h.example/many/doc%03d.json?rev=%d", i, i)
+			rel = u + "#/definitions/d"
+		}
 		w.Docs[u] = map[string]interface{}{"definitions": map[string]interface{}{"d": map[string]interface{}{"title": fmt.Sprintf("doc %d", i), "type": "object"}}}
-		props[fmt.Sprintf("a%03d", i)] = map[string]interface{}{"$ref": fmt.Sprintf("many/doc%03d.json#/definitions/d", i)}
-		props[fmt.Sprintf("b%03d", i)] = map[string]interface{}{"$ref": fmt.Sprintf("file:///w/a/many/doc%03d.json#/definitions/d", i)}
+		props[fmt.Sprintf("a%03d", i)] = map[string]interface{}{"$ref": rel}
+		props[fmt.Sprintf("b%03d", i)] = map[string]interface{}{"$ref": u + "#/definitions/d"}
 	}
 	w.Docs[gen.RootURL] = map[string]interface{}{"swagger": "2.0", "info": map[string]interface{}{"title": "t", "version": "1"}, "paths": map[string]interface{}{},
 		"definitions": map[string]interface{}{"big": map[string]interface{}{"title": "big", "properties": props}}}
@@ -290,15 +296,19 @@ func c18Run(env *core.Env, idx int) core.CaseResult {
 			}
 		}
 		// (b) every subset of the external documents pre-loaded
+		most := 4
+		if w.Features["id-scoped-world"] > 0 {
+			most = 5 // also the document that lives at the id's own location
+		}
 		nsub := 1 << uint(len(ext))
-		if len(ext) > 4 {
-			nsub = 16
+		if len(ext) > most {
+			nsub = 1 << uint(most)
 		}
 		for mask := 1; mask < nsub; mask++ {
 			cache := spec.VerifNewDefaultCache()
 			pre := map[string]bool{}
 			for i, u := range ext {
-				if i < 4 && mask&(1<<uint(i)) != 0 {
+				if i < most && mask&(1<<uint(i)) != 0 {
 					cache.Set(u, generic(u))
 					pre[u] = true
 				}
@@ -379,9 +389,72 @@ func c18Run(env *core.Env, idx int) core.CaseResult {
 		}
 	}
 	c18WithRoot(env, idx, &res)
+	if idx >= 3 && idx < 3+4 {
+		c18DirectID(idx-3, &res)
+	}
 	res.NonTrivial = len(ext) >= 2 && twoPlaces > 0
 	res.Sample = map[string]interface{}{"documents": len(w.Docs), "definitions": len(defs), "external_documents": len(ext)}
 	return res
+}
+
+// c18DirectID: the schema handed to the expander itself holds a sub-schema whose id is the location of a real document, and a
+// fragment-only $ref below that id; the document at that location has a namesake of the target. Whatever the cache holds at that
+// location - nothing, the document pre-loaded, what an earlier expansion left - the answer is the one given without a cache.
+func c18DirectID(k int, res *core.CaseResult) {
+	itemURL := []string{"http://ids.example/c18/item.json", "file:///w/a/s/item.json"}[k%2]
+	pos := []string{"properties", "items"}[k/2]
+	var holder interface{} = map[string]interface{}{"n": map[string]interface{}{"$ref": "#/definitions/name"}}
+	if pos == "items" {
+		holder = map[string]interface{}{"$ref": "#/definitions/name"}
+	}
+	schemaText, _ := json.Marshal(map[string]interface{}{"title": "outer", "definitions": map[string]interface{}{"wrapper": map[string]interface{}{
+		"id": itemURL, "title": "wrapper", "definitions": map[string]interface{}{"name": map[string]interface{}{"title": "name of the schema with the id", "type": "string"}}, pos: holder}}})
+	itemDoc := map[string]interface{}{"definitions": map[string]interface{}{"name": map[string]interface{}{"title": "name of the document at that location", "type": "integer"}}}
+	var reqs []string
+	loader := func(u string) (json.RawMessage, error) {
+		reqs = append(reqs, u)
+		if u == itemURL {
+			b, _ := json.Marshal(itemDoc)
+			return b, nil
+		}
+		return nil, fmt.Errorf("no document at %s", u)
+	}
+	run := func(cache spec.ResolutionCache) ([]byte, error, string) {
+		s := new(spec.Schema)
+		_ = json.Unmarshal(schemaText, s)
+		err, pan := guard(func() error { return spec.ExpandSchemaWithBasePath(s, cache, &spec.ExpandOptions{RelativeBase: gen.RootURL, PathLoader: loader}) })
+		b, _ := json.Marshal(s)
+		return b, err, pan
+	}
+	ref, rerr, rpan := run(nil)
+	res.Evals++
+	if rerr != nil || rpan != "" {
+		res.Count("reference-run-failed", 1)
+		return
+	}
+	pre := spec.VerifNewDefaultCache()
+	var g interface{}
+	b, _ := json.Marshal(itemDoc)
+	_ = json.Unmarshal(b, &g)
+	pre.Set(itemURL, g)
+	reused := spec.VerifNewDefaultCache()
+	_, _, _ = run(reused)
+	for _, c := range []struct {
+		name  string
+		cache spec.ResolutionCache
+	}{{"fresh cache", spec.VerifNewDefaultCache()}, {"document at the id's location pre-loaded", pre}, {"reused from an earlier expansion", reused}} {
+		reqs = nil
+		got, err, pan := run(c.cache)
+		res.Evals++
+		res.Count("schema-with-id-at-a-document-location", 1)
+		wit := map[string]interface{}{"schema": json.RawMessage(schemaText), "id": itemURL, "document_at_that_location": itemDoc, "cache": c.name, "base": gen.RootURL}
+		switch {
+		case pan != "" || err != nil:
+			res.Violate("cache-changes-outcome (schema with an id, "+c.name+")", fmt.Sprintf("%v %s", err, pan), wit)
+		case !bytes.Equal(ref, got):
+			res.Violate("cache-changes-result (schema with an id, "+c.name+")", fmt.Sprintf("%s instead of %s", core.Abbrev(string(got), 300), core.Abbrev(string(ref), 300)), wit)
+		}
+	}
 }
 
 // c18WithRoot: the entry points that take an in-memory root and a cache (ExpandSchema, ExpandParameterWithRoot, ExpandResponseWithRoot).
@@ -525,7 +598,7 @@ func init() {
 		Run:      c18Run,
 		Floors: func(env *core.Env) []string {
 			return []string{"entry.ExpandSpec", "entry.ExpandSchemaWithBasePath", "cache.fresh-library", "cache.fresh-wrapped", "cache.preloaded-subset", "cache.reused-library", "cache.reused-wrapped",
-				"cache.after-loader-fault", "cache-sets-observed", "many-documents-world", "id-scoped-world",
+				"cache.after-loader-fault", "cache-sets-observed", "many-documents-world", "id-scoped-world", "schema-with-id-at-a-document-location",
 				"with-root.ExpandSchema", "with-root.ExpandParameterWithRoot", "with-root.ExpandResponseWithRoot", "with-root.external-documents-needed"}
 		},
 		Assumptions: []string{"pre-loaded entries are generic JSON documents stored under their canonical URL, as the loader would have produced them"},
